@@ -293,10 +293,8 @@ type wproc struct {
 
 func startWorker(tier, knownF string) (*wproc, error) {
 	self, _ := os.Executable()
-	args := []string{"-worker", "-tier", tier}
-	if knownF != "" {
-		args = append(args, "-known", knownF)
-	}
+	// the worker sees exactly the driver's flags (harnesses add their own)
+	args := append(append([]string{}, os.Args[1:]...), "-worker")
 	cmd := exec.Command(self, args...)
 	cmd.Env = append(os.Environ(), "GOMAXPROCS=2")
 	cmd.Stderr = os.Stderr
